@@ -1073,6 +1073,10 @@ def _graph_pop(
     elif not is_node_leaf(value):
       continue
     elif id(value) in id_to_index:
+      # this leaf was already popped through another reference to it,
+      # remove the remaining reference as well.
+      if isinstance(node_impl, GraphNodeImpl):
+        node_impl.pop_key(node, name)
       continue
 
     node_path = (*path_parts, name)
